@@ -58,7 +58,7 @@ void h_reform(void) {
   VF_ASSERT(aux_int && naux <= MAXVAR - nargs - 1, "auxiliary variables are binary");
   for (u32 t = 0; t < MAXT; t++) { if (t >= def_n) break; VF_ASSERT((def_c[t] == 1.0 || def_c[t] == -1.0) && def_v[t] >= 0 && (u32)def_v[t] < nvar, "defined variable: affine with +-1 coefficients over existing variables"); }
   /* symbolic point: small integers (exact arithmetic); logical arguments / results binary; result inside its domain */
-  for (u32 i = 0; i < MAXVAR; i++) { s32 t = (s32)vf_nd32(); VF_REQUIRE(t >= -1000 && t <= 1000); if (logical || (i > R && (s32)i != def_var) || (WHICH == 5 && i == 0)) VF_REQUIRE(t == 0 || t == 1); val[i] = (double)t; }
+  for (u32 i = 0; i < MAXVAR; i++) { s32 t = (s32)vf_nd32(); VF_REQUIRE(t >= -1000 && t <= 1000); if (logical || (i > R && (s32)i != def_var) || (WHICH == 5 && i == 0) || (WHICH == 7 && i < R)) VF_REQUIRE(t == 0 || t == 1); val[i] = (double)t; }
   VF_REQUIRE(val[R] >= rlb && val[R] <= rub);
   double f;
   if (WHICH == 0) { f = 1.0; for (u32 i = 0; i < nargs; i++) if (val[i] == 0.0) f = 0.0; }
@@ -67,6 +67,7 @@ void h_reform(void) {
   else if (WHICH == 3) { f = val[0]; for (u32 i = 1; i < nargs; i++) if (val[i] > f) f = val[i]; }
   else if (WHICH == 5) f = val[0] != 0.0 ? val[1] : val[2];
   else if (WHICH == 6) f = val[0] != 0.0 ? 0.0 : 1.0;
+  else if (WHICH == 7) { f = 0.0; for (u32 i = 0; i < nargs; i++) if (val[i] != 0.0) f = f + 1.0; }
   else f = val[0] < 0 ? -val[0] : val[0];
   double r = val[R];
   /* meaning of the item in its context: positive: r <= f (r true implies f true), negative: r >= f, mixed: r == f */
